@@ -672,6 +672,14 @@ func (pv *prover) cmpFacts(cond ast.Expr, pos bool, why string) []prFact {
 		return []prFact{{prConst(0).add(d, -1), w}}
 	case token.EQL:
 		return []prFact{{d, w}, {prConst(0).add(d, -1), w}}
+	case token.NEQ:
+		// x != y is linear only when one order is excluded by value ranges (len(s) != 0)
+		if pv.trivial(prConst(0).add(d, -1)) { // y <= x always, hence x >= y+1
+			return []prFact{{prConst(1).add(d, -1), w}}
+		}
+		if pv.trivial(d) { // x <= y always, hence x <= y-1
+			return []prFact{{d.add(prConst(1), 1), w}}
+		}
 	}
 	return nil
 }
